@@ -10,7 +10,8 @@ Ev == TraceLog[l]
 Chk(cond) == IF cond THEN TRUE ELSE PrintT(<<"MISMATCH", l>>)
 Init == l = 1
 TRogue == /\ l <= Len(TraceLog) /\ Ev.e = "Rogue" /\ l' = l + 1
-          /\ Chk(IF Ev.mutual THEN ((Ev.srvrc = 1) <=> (Ev.cCert /\ Ev.cOK /\ Ev.cPoss)) ELSE Ev.srvrc = 1)
+          /\ Chk(IF ~Ev.wellformed THEN Ev.srvrc # 1              \* message sequence deviations (ChangeCipherSpec early / missing / twice, Finished in clear, wrong or missing)
+                 ELSE IF Ev.mutual THEN ((Ev.srvrc = 1) <=> (Ev.cCert /\ Ev.cOK /\ Ev.cPoss)) ELSE Ev.srvrc = 1)
           /\ Chk((Ev.srvrc # 1) => ~Ev.peerdone)             \* the peer never sees a server Finished for a handshake the server refused
           /\ Chk(Ev.srvrc = 1 => Ev.delivered)               \* and after a completed one the application data arrives
 TReset == l <= Len(TraceLog) /\ Ev.e = "Reset" /\ l' = l + 1
